@@ -414,6 +414,23 @@ def analyze(ctx, want):
         ob("C18.b", "class-lookup-by-the-given-id", got_ in ("slice::getself.character_classes, id", "Vec::getself.character_classes, id") or re.match(r"^(slice|Vec)::getself\.character_classes, (CharClassID::as_usize)?id( as usize)?$", got_) is not None,
            "get_character_class(id) returns %s" % S.fstr(p_.end[1])[:100], gc.loc())
 
+    # ids and token types appear in node names and labels through the Display impl of the id newtypes: it prints the number
+    # itself — as it is, through no narrower type and no arithmetic
+    n_disp = 0
+    for fd in sorted((f_ for f_ in F.fns.values() if re.match(r"^<internal::ids::\w+ as std::fmt::Display>::fmt$", f_.name)), key=lambda f_: f_.name):
+        n_disp += 1
+        exd, pd = run_fn(fd, F, LogModel())
+        for p_ in ret_paths(pd):
+            nd = [e_ for e_ in p_.events if e_[0] == "call" and re.search(r"fmt::rt::Argument::<'_>::new_(display|debug)::<", e_[2])]
+            dl = [e_ for e_ in p_.events if e_[0] == "call" and re.search(r"^<(u8|u16|u32|u64|usize|u128) as std::fmt::(Display|Debug)>::fmt$", e_[2])]
+            shown = [re.sub(r"[&*()]", "", S.fstr(argval(e_, 0))) for e_ in nd + dl]
+            tpl = [e_ for e_ in p_.events if e_[0] == "call" and re.search(r"fmt::Arguments::<'_>::new", e_[2])]
+            plain = all(re.search(r"\\xc0\\x00\"?$", S.fstr(argval(e_, 0))) and S.fstr(argval(e_, 0)).count("xc0") == 1 for e_ in tpl)
+            ob("C18.b", "id-display-prints-the-number:" + M.short_name(fd.name.split(" as ")[0].lstrip("<")), shown == ["self.0"] and plain,
+               "Display for %s shows %s%s" % (M.short_name(fd.name.split(" as ")[0].lstrip("<")), shown, "" if plain else " inside other text"), fd.loc())
+    if "C18.b" in want:
+        ctx.floor("C18.b", "Display impls of the id newtypes", n_disp, 4)
+
     cr = F.fn(r"internal::dot::compiled_dfa_render$")
     ctx.analysed_fn(cr)
     ex, paths = run_fn(cr, F, LogModel(), max_paths=5000, desugar=r".|collect")
